@@ -29,6 +29,7 @@ class Reporter:
         self.functions = set()
         self.assumptions = []
         self.extra = {}
+        self.gaps = []           # (rule function, message, fatal?)
 
     # ------------------------------------------------------------------ api
     def rule(self, rid, text):
@@ -55,6 +56,9 @@ class Reporter:
 
     def note(self, rule, where, construct, detail, instance=""):
         return self._rec("note", rule, instance, where, construct, detail)
+
+    def gap(self, where, msg, fatal=True):
+        self.gaps.append((where, msg, fatal))
 
     def analysed(self, *funcs):
         for f in funcs:
@@ -116,6 +120,13 @@ class Reporter:
                 f"  rule={v['rule']} at {v['where']}: {v['construct']!r}\n"
                 f"  why: {v['detail']}"
                 + (f"\n  path: {' -> '.join(v['path'])}" if v.get("path") else ""))
+        fatal = [g for g in self.gaps if g[2]]
+        for where, msg, f in self.gaps:
+            if not f:
+                out_lines.append(
+                    f"NOTE property={self.pid} {where}: not evaluated "
+                    f"(construct outside the shape interpreter): {msg}")
+        self.extra["analysis_gaps"] = [f"{w}: {m}" for w, m, f in self.gaps]
         self._write_evidence(len(new), matched)
         holds = sum(1 for r in self.records if r["verdict"] == "holds")
         out_lines.append(
@@ -123,9 +134,20 @@ class Reporter:
             f"hold={holds} violations={len(new)} known={len(matched)} "
             f"notes={self._n('note')} functions={len(self.functions)} "
             f"wall={time.time() - self.t0:.2f}s")
+        if fatal and not new:
+            for where, msg, f in fatal:
+                out_lines.append(
+                    f"ANALYSIS-ERROR property={self.pid} in {where}: {msg}")
+        elif fatal:
+            for where, msg, f in fatal:
+                out_lines.append(
+                    f"NOTE property={self.pid} {where} could not be "
+                    f"evaluated on this tree: {msg}")
         if not self.quiet:
             print("\n".join(out_lines))
-        return 1 if new else 0
+        if new:
+            return 1
+        return 2 if fatal else 0
 
     def _n(self, verdict):
         return sum(1 for r in self.records if r["verdict"] == verdict)
